@@ -134,6 +134,8 @@ def run(ck):
                 detail = "; ".join("%s %s: %s" % (cases[f[0]]["kind"], f[1], f[2].replace("\n", " ")[:100]) for f in failing[:3])
     ck.oblige("correspondence:log_prob / support / affine parameters / Jacobian of the real prior objects == generated helpers", "correspondence", ok, detail)
     ck.oblige("correspondence:stored under name+suffix with TransformReparam", "correspondence", not book_bad, json.dumps(book_bad[:2]))
+    ck.oblige("oracle:log_prob / samples of the real prior objects == the stated laws (scipy), support respected", "correspondence",
+              not oracle_bad, json.dumps(oracle_bad[0][1]["oracle"][:2]) if oracle_bad else "")
     ck.samples += [{"case": c, "points": [(float.fromhex(x), l if l in ("-inf", "nan") else float.fromhex(l)) for x, l in r["points"][:3]]} for c, r in list(zip(cases, res))[:4]]
     ck.trusted += ["Coq 8.16.1 kernel; Interval; Reals axioms", "translator unit PriorHelpers",
                    "numpyro TransformedDistribution/AffineTransform semantics modelled by pushed_lpdf (log|scale| Jacobian) and exposed = loc + scale*base; standard normal CDF abstract "
